@@ -57,9 +57,16 @@ static void threadsafe_mem_leak_free(void* buffer, const char* file, size_t line
     MemoryLeakWarningPlugin::getGlobalDetector()->deallocMemory(getCurrentMallocAllocator(), (char*) buffer, file, line, true);
 }
 
+/* simulated out of memory (null allocator): realloc fails like malloc and leaves the block untouched */
+static bool mem_leak_realloc_is_out_of_memory()
+{
+    return getCurrentMallocAllocator() == NullUnknownAllocator::defaultAllocator();
+}
+
 static void* threadsafe_mem_leak_realloc(void* memory, size_t size, const char* file, size_t line)
 {
     MemLeakScopedMutex lock;
+    if (mem_leak_realloc_is_out_of_memory()) return NULLPTR;
     return MemoryLeakWarningPlugin::getGlobalDetector()->reallocMemory(getCurrentMallocAllocator(), (char*) memory, size, file, line, true);
 }
 
@@ -77,6 +84,7 @@ static void mem_leak_free(void* buffer, const char* file, size_t line)
 
 static void* mem_leak_realloc(void* memory, size_t size, const char* file, size_t line)
 {
+    if (mem_leak_realloc_is_out_of_memory()) return NULLPTR;
     return MemoryLeakWarningPlugin::getGlobalDetector()->reallocMemory(getCurrentMallocAllocator(), (char*) memory, size, file, line, true);
 }
 
